@@ -19,7 +19,19 @@ VERUS = {
                         }},
 }
 
-KANI = {}
+KANI = {
+    "k2_meta": {
+        "crate": "nomt", "module": "store::meta::verif_kani", "module_file": "/verif/units/kani/store_meta.rs",
+        "harnesses": [
+            {"name": "meta_roundtrip", "complete": True, "about": "Meta::encode_to / Meta::decode (nomt/src/store/meta.rs)",
+             "contract": "forall m, buf: decode(encode_to(m, buf)) == m field by field; bytes >= META_SIZE of buf unchanged"},
+            {"name": "meta_decode_injective", "complete": True, "about": "Meta::decode / Meta::encode_to",
+             "contract": "forall b: [u8;64]: encode_to(decode(b)) == b (no slack bytes in the record)"},
+        ],
+        "functions": [("nomt/src/store/meta.rs", "Meta::encode_to"), ("nomt/src/store/meta.rs", "Meta::decode")],
+        "harness_timeout": 300,
+    },
+}
 
 PROPERTIES = {
     "C04": {"verus": ["v1_sync"], "kani": [], "level": "proof",
@@ -27,6 +39,11 @@ PROPERTIES = {
             "level_text": "Sync::sync, extracted byte-for-byte on every run, is proved for all inputs against callee contracts in which Meta::write requires the WAL, value files and rollback range named by the new meta to be durable and every post-switch-over step requires the committed meta. Proof of the ordering inside the orchestrating function, not of the whole system.",
             "level_note": "callee contracts (bitbox/beatree/rollback sync controllers, Meta::write) are assumed (stubs) except where a Kani harness discharges them; threads behind begin_sync, fsync semantics of the OS and the u32 sequence number not wrapping are assumed",
             "explanation": "", "assumptions": ["callee contracts listed in trusted_base", "fsync makes data durable", "sync_seqn < u32::MAX", "panic_on_sync test knob is off"]},
+    "C16": {"verus": [], "kani": ["k2_meta"], "level": "proof",
+            "technique": "contract-based verification of the on-disk codecs (Kani harnesses over full-domain symbolic inputs on the real functions; Verus on separators and the free list)",
+            "level_text": "format level: each codec pair of the on-disk formats is proved inverse and frame-tight on the real functions; loop-free or format-constant-bounded harnesses are complete proofs, the others are labelled bounded. The whole-image invariant after a history is not decided.",
+            "level_note": "Kani/CBMC; PagePool buffers modelled as fresh 4096-byte arrays; bounded harnesses are listed in coverage.bounded_obligations and are not counted as proved",
+            "explanation": "", "assumptions": ["global well-formedness across pages after a history is not decided"]},
     "C12": {"verus": ["v3_commit_entry"], "kani": [], "level": "proof",
             "technique": "contract-based deductive verification (Verus on the four commit entry points extracted verbatim; effects require an `authorised()` token only the base check yields)",
             "level_text": "FinishedSession::{commit,try_commit_nonblocking} and Overlay::{commit,try_commit_nonblocking} are proved for all inputs: every effectful callee (rollback log append, store commit, overlay status flip) and both shared-state assignments require that the previous-root check has passed on this execution. Failures are replayed by scenarios against the real crate.",
